@@ -201,6 +201,73 @@ func runC05(p *Prog, r *Report, tier string) {
 			r.Check(okL, "R-VALUE.throughput", "aggregateRecords: common throughput follows the latest reporter", p.instrPos(s.in), "under isLatest", "the common throughput is overwritten by a record that is not the latest", true)
 		}
 	}
+	// ---- exactness: an update that is additionally conditioned on something else is skipped for some records, which
+	// breaks conservation just like a missing update. Structural facts (loop bounds, presence / nil tests) are ignored.
+	structural := func(f string) bool {
+		return strings.Contains(f, "builtin:len(") || strings.Contains(f, "== nil") || strings.HasPrefix(f, "exists(") || strings.HasPrefix(f, "!exists(")
+	}
+	isLatestFact := func(f string) bool {
+		return strings.HasPrefix(f, "phi{") && strings.Contains(f, "true") && strings.Contains(f, "false")
+	}
+	checkExact := func(what string, st *setSite, allowed func(f string) bool) {
+		var extra []string
+		for _, f := range st.facts {
+			if structural(f) || allowed(f) {
+				continue
+			}
+			extra = append(extra, f)
+		}
+		r.Check(len(extra) == 0, "R-VALUE.exact", "aggregateRecords: "+what+" := "+st.arg, p.instrPos(st.in), "updated under exactly the conditions the invariant names",
+			fmt.Sprintf("the update is additionally conditioned on %v: for records where that does not hold the field is not brought up to date", extra), true)
+	}
+	for i := range sites {
+		st := &sites[i]
+		switch {
+		case strings.Contains(st.recv, ".AggregatedSourceStatsElements[i])") || strings.Contains(st.recv, ".SourceThroughputElements[i])"):
+			checkExact("source-node field "+st.recv, st, func(f string) bool { return f == isDelta || f == "!"+isDelta || f == "$fillSrcStats" })
+		case strings.Contains(st.recv, ".AggregatedDestinationStatsElements[i])") || strings.Contains(st.recv, ".DestinationThroughputElements[i])"):
+			checkExact("destination-node field "+st.recv, st, func(f string) bool { return f == isDelta || f == "!"+isDelta || f == "$fillDstStats" })
+		case st.recv == common:
+			checkExact("common stats field", st, func(f string) bool {
+				return f == isDelta || f == "!"+isDelta || f == "$fillSrcStats" || f == "$fillDstStats" || isLatestFact(f) || f == "(GetUnsigned64Value("+common+") < "+IN+")"
+			})
+		case strings.Contains(st.recv, ".ThroughputElements[i])"):
+			checkExact("common throughput field", st, isLatestFact)
+		}
+	}
+	for i := range s32 {
+		st := &s32[i]
+		if st.recv == `elem($existingRecord, "flowEndSeconds")` {
+			inV := `GetUnsigned32Value(elem($incomingRecord, "flowEndSeconds"))`
+			checkExact("flow end time", st, func(f string) bool { return f == "("+inV+" >= GetUnsigned32Value("+st.recv+"))" })
+		}
+	}
+	// the TCP state is a common field: it follows the record with the latest end time
+	nTS := 0
+	for _, st := range setSites(p, agg, "SetStringValue") {
+		st := st
+		isTS := false
+		for _, f := range st.facts {
+			if strings.HasPrefix(f, `("tcpState" == `) {
+				isTS = true
+			}
+		}
+		if !isTS {
+			continue
+		}
+		nTS++
+		lat := false
+		for _, f := range st.facts {
+			if isLatestFact(f) {
+				lat = true
+			}
+		}
+		r.Check(lat && strings.HasPrefix(st.arg, "GetStringValue(elem($incomingRecord"), "R-VALUE.step", "aggregateRecords: tcpState := incoming only when the incoming record is the latest", p.instrPos(st.in),
+			"under isLatest", "the TCP state is overwritten by a record that does not carry the latest end time: the common fields no longer follow the latest reporter", true)
+	}
+	if nTS == 0 {
+		r.Infof("aggregateRecords has no tcpState case; nothing to check for it")
+	}
 	// ---- success returns: only "nothing configured", "not the latest record from its node" and the end of the function
 	nRet := 0
 	eachInstr(agg, func(in ssa.Instruction) {
@@ -274,6 +341,7 @@ func runC05(p *Prog, r *Report, tier string) {
 	}
 	// ---- base: seeds
 	checkSeeds(p, r)
+	checkNodeFlags(p, r)
 	// ---- reset
 	checkReset(p, r)
 	// ---- key
@@ -736,4 +804,72 @@ func reachableAvoiding(from, to, avoid *ssa.BasicBlock) bool {
 		return false
 	}
 	return w(from)
+}
+
+// checkNodeFlags: in addOrUpdateRecordInMap every call that takes the (fillSrcStats, fillDstStats) pair - the two seed
+// functions for a new flow and aggregateRecords for an existing one - is given the pair its branch stands for:
+// correlation required and record from the source node => (true,false); from the destination node => (false,true);
+// no correlation => (true,true). A pair that does not match its branch credits one node's counters to the other.
+func checkNodeFlags(p *Prog, r *Report) {
+	f := p.Fn("(*pkg/intermediate.AggregationProcess).addOrUpdateRecordInMap")
+	if f == nil {
+		r.Undecided("R-VALUE.node-flags", "anchor: addOrUpdateRecordInMap", "pkg/intermediate/aggregate.go", "not found")
+		return
+	}
+	n := 0
+	eachInstr(f, func(in ssa.Instruction) {
+		c, ok := in.(*ssa.Call)
+		if !ok || c.Call.StaticCallee() == nil {
+			return
+		}
+		cal := c.Call.StaticCallee()
+		ps := cal.Params
+		if len(ps) < 3 || ps[len(ps)-1].Name() != "fillDstStats" || ps[len(ps)-2].Name() != "fillSrcStats" {
+			return
+		}
+		n++
+		args := c.Call.Args
+		sv, okS := args[len(args)-2].(*ssa.Const)
+		dv, okD := args[len(args)-1].(*ssa.Const)
+		// branch this call stands in
+		corr, src := 0, 0 // 0 unknown, 1 true, -1 false
+		for _, gd := range guardsOf(in.Block()) {
+			pol := 1
+			if gd.Succ == 1 {
+				pol = -1
+			}
+			switch cv := gd.If.Cond.(type) {
+			case *ssa.Call:
+				if cv.Call.StaticCallee() != nil && cv.Call.StaticCallee().Name() == "isRecordFromSrc" {
+					src = pol
+				}
+				if cv.Call.StaticCallee() != nil && cv.Call.StaticCallee().Name() == "isCorrelationRequired" {
+					corr = pol
+				}
+			}
+		}
+		want := ""
+		switch {
+		case corr == 1 && src == 1:
+			want = "true,false"
+		case corr == 1 && src == -1:
+			want = "false,true"
+		case corr == -1:
+			want = "true,true"
+		}
+		got := "?"
+		if okS && okD {
+			got = fmt.Sprintf("%v,%v", sv.Value.String() == "true", dv.Value.String() == "true")
+		}
+		cons := fmt.Sprintf("addOrUpdateRecordInMap: %s call #%d (fillSrcStats, fillDstStats)", cal.Name(), n)
+		if want == "" {
+			r.Undecided("R-VALUE.node-flags", cons, p.instrPos(in), "the call is not under a recognisable (correlation required, record from source) branch")
+			return
+		}
+		r.Check(got == want, "R-VALUE.node-flags", cons, p.instrPos(in), "("+want+") as its branch requires",
+			"the pair is ("+got+") where the branch stands for ("+want+"): one node's counters / time base / throughput are credited to the other node", true)
+	})
+	if n < 9 {
+		r.Undecided("R-VALUE.node-flags", "anchor: calls taking (fillSrcStats, fillDstStats)", p.pos(f.Pos()), fmt.Sprintf("expected 3 aggregate calls and 6 seed calls, found %d", n))
+	}
 }
